@@ -446,6 +446,9 @@ func (mc *modelCheck) run(c *vk.Ctx) {
 		if cfg.First {
 			c.Count("histories_with_pre_vm_function", 1)
 		}
+		if c.RNG(key+"/dbg").Chance(1, 8) {
+			cfg.Debug = true // StateDebug/EngineDebug and an engine.SimpleDebug: observers must not change anything
+		}
 		if c.RNG(key+"/fus").Chance(1, 5) {
 			cfg.FuncUsesStore = true // per-request drivers: the functions keep user data in the store that holds the session
 		}
